@@ -306,12 +306,72 @@ func checkC18(tier, replay string) int {
 			ctx.Sample(map[string]any{"run": r, "found": foundOf[k], "emitted": got})
 		}
 	})
+	// a disassembly that cannot be read to the end (a 70000-byte line between the sites): whatever the profiler prints with
+	// exit status 0 has to be the list for ALL sites of the listing - a profile made from the readable part is not "exactly the
+	// syscalls discovered in the binary"
+	var unreadable int64
+	if replay == "" {
+		type ur struct {
+			GoArch string `json:"goarch"`
+			Format string `json:"format"`
+			At     int    `json:"long_line_before_function"`
+		}
+		var urs []ur
+		for _, ga := range []string{"amd64", "386"} {
+			for _, f := range []string{"config", "code"} {
+				for at := 0; at < c18Sites; at++ {
+					urs = append(urs, ur{ga, f, at})
+				}
+			}
+		}
+		parallelFor(len(urs), func(i int) {
+			u := urs[i]
+			a := archOf[u.GoArch]
+			full := 1<<c18Sites - 1
+			txt, found := c18Listing(a, full, u.GoArch == "386")
+			marker := fmt.Sprintf("TEXT main.site%d(SB)", u.At)
+			k := strings.Index(txt, marker)
+			if k < 0 {
+				return
+			}
+			txt = txt[:k] + "  p.go:0\t0x1\t90\t" + strings.Repeat("X", 70000) + "\n" + txt[k:]
+			lp := filepath.Join(scratch, fmt.Sprintf("unreadable-%d.lst", i))
+			os.WriteFile(lp, []byte(txt), 0o644)
+			defer os.Remove(lp)
+			bin := filepath.Join(scratch, fmt.Sprintf("c18-%d-%d", os.Getpid(), atomic.AddInt64(&seq, 1)))
+			if os.Link(pe.hello[u.GoArch], bin) != nil {
+				copyFile(pe.hello[u.GoArch], bin)
+			}
+			defer os.Remove(bin)
+			defer os.Remove(profilerCachePath(pe.home, bin))
+			res := runCmd(60*time.Second, pe.env(lp, nil), scratch, pe.profiler, "-format", u.Format, bin)
+			atomic.AddInt64(&done, 1)
+			atomic.AddInt64(&unreadable, 1)
+			if res.Exit != 0 {
+				return // refusing is right
+			}
+			var got []string
+			var perr error
+			if u.Format == "config" {
+				got, perr = namesFromYAML(res.Stdout)
+			} else {
+				got, perr = namesFromGoCode(res.Stdout, u.GoArch)
+			}
+			want := dedup(append([]string{}, found...))
+			sort.Strings(want)
+			want = dedup(want)
+			if perr != nil || strings.Join(got, ",") != strings.Join(want, ",") {
+				ctx.Violation("C18:partial-listing-profiled:"+u.Format+":"+u.GoArch, fmt.Sprintf("the disassembly has a line that cannot be read (70000 bytes, before function %d of %d), the profiler exited 0 and emitted %v; all sites of the listing are %v", u.At, c18Sites, got, want), u)
+			}
+		})
+	}
+	ctx.Cov["runs_on_a_disassembly_that_cannot_be_read_to_the_end"] = unreadable
 	ctx.Cov["evaluations"] = done + events
 	ctx.Cov["distinct_nontrivial"] = nonEmpty
 	ctx.Cov["profiler_runs"] = done
 	ctx.Cov["runs_with_non_empty_profile"] = nonEmpty
 	ctx.Cov["filter_events_executed"] = events
-	ctx.Cov["rule"] = "the real profiler binary (with a fake `go` tool printing a synthetic listing) is run for every sub-multiset of a 7-site universe (read, write at two sites, exit_group, a number in no table, syscall 0 through the XOR idiom, readv = a name with another discovered name as proper prefix) x blacklist subsets of {read, exit_group, bogus_syscall, readv} x allow subsets of {write, rt_sigreturn, bogus_allow, waitpid(i386 only)} x flag spellings (comma, semicolon, blank+comma, repeated flag, a name repeated inside one value, a name repeated across flags) x formats {config, code} x binaries {amd64, 386} x output destination in rotation {stdout, -out with a GOOS/GOARCH template naming a fresh file, -out naming a file that an earlier more permissive invocation wrote a longer profile to} (quick: a rotating selection of the last dimensions; thorough: the full product); the emitted name list (YAML parsed by the harness / Go code parsed with go/parser) must equal sort(dedup((found ∩ table) − blacklist) ∪ (allow ∩ table)); the YAML must load through ucfg and compile to a filter that, on every cell of the exact partition, allows exactly those syscalls and answers errno otherwise; non-trivial = runs with a non-empty profile"
+	ctx.Cov["rule"] = "the real profiler binary (with a fake `go` tool printing a synthetic listing) is run for every sub-multiset of a 7-site universe (read, write at two sites, exit_group, a number in no table, syscall 0 through the XOR idiom, readv = a name with another discovered name as proper prefix) x blacklist subsets of {read, exit_group, bogus_syscall, readv} x allow subsets of {write, rt_sigreturn, bogus_allow, waitpid(i386 only)} x flag spellings (comma, semicolon, blank+comma, repeated flag, a name repeated inside one value, a name repeated across flags) x formats {config, code} x binaries {amd64, 386} x output destination in rotation {stdout, -out with a GOOS/GOARCH template naming a fresh file, -out naming a file that an earlier more permissive invocation wrote a longer profile to} (quick: a rotating selection of the last dimensions; thorough: the full product); the emitted name list (YAML parsed by the harness / Go code parsed with go/parser) must equal sort(dedup((found ∩ table) − blacklist) ∪ (allow ∩ table)); the YAML must load through ucfg and compile to a filter that, on every cell of the exact partition, allows exactly those syscalls and answers errno otherwise; plus runs on a disassembly with an over-long line before each function: exit status 0 is only acceptable with the list for all sites; non-trivial = runs with a non-empty profile"
 	ctx.Assumptions = []string{"set algebra of the statement for disjoint flag sets", "the fake go tool stands for the disassembler"}
 	if replay != "" {
 		return finishReplay(ctx)
